@@ -815,6 +815,9 @@ func grpcStatusFromError(err error) (*statusv1.Status, error) {
 		}
 		status.Details = details
 	}
+	// A message that isn't valid UTF-8 can't be serialized; an error that loses
+	// a few bytes of its text is better than one that loses its code.
+	status.Message = strings.ToValidUTF8(status.Message, "\uFFFD")
 	return status, nil
 }
 
